@@ -338,6 +338,43 @@ func runCLI(c Case) (o evid.Outcome, err error) {
 	if !strings.Contains(out, "hasn't changed") {
 		return o, fmt.Errorf("unchanged data not reported as unchanged: %q", out)
 	}
+	// the other direction through the same path: editing the branch file right away (same second
+	// or not) must be noticed - one more row is other content, so the branch moves to a new table
+	edited := permuted(c.Table, c.Perm)
+	extra := make([]gen.Cell, len(edited.Cols))
+	for i := range extra {
+		extra[i] = gen.Cell(fmt.Sprintf("zz-new-row-%d", i))
+	}
+	edited.Rows = append(append([][]gen.Cell{}, edited.Rows...), extra)
+	if _, err := repo.WriteFile("data.csv", edited.CSV(delim)); err != nil {
+		return o, fmt.Errorf("HARNESS: %v", err)
+	}
+	out, err = repo.Run("commit", "main", "third", "-n", fmt.Sprint(c.Cfg2.Workers), "--mem-limit", fmt.Sprint(ingestx.RunSize(rows, c.Cfg2.Spills)))
+	if err != nil {
+		return o, fmt.Errorf("third commit: %v (%s)", err, out)
+	}
+	head3, err := headOf(repo)
+	if err != nil {
+		return o, err
+	}
+	if bytes.Equal(head3, head2) {
+		return o, fmt.Errorf("the branch file got one more row but `wrgl commit` did not move the branch; output %q", out)
+	}
+	{
+		db, _, closeFn, err := repo.Open()
+		if err != nil {
+			return o, fmt.Errorf("HARNESS: %v", err)
+		}
+		c2, err2 := objects.GetCommit(db, head2)
+		c3, err3 := objects.GetCommit(db, head3)
+		closeFn()
+		if err2 != nil || err3 != nil {
+			return o, fmt.Errorf("head commits unreadable: %v %v", err2, err3)
+		}
+		if bytes.Equal(c2.Table, c3.Table) {
+			return o, fmt.Errorf("tables differing by one appended row share the identifier %x", c2.Table)
+		}
+	}
 	o.NonTrivial = len(rows) >= 2
 	o.Class("blocks=%d", (len(rows)+254)/255)
 	return o, nil
